@@ -951,12 +951,15 @@ func (sc *srvScen) respondingNodeVia(addr *net.UDPAddr, id [20]byte, ro bool, pi
 	}
 	w0 := sc.conn.numWrites()
 	done := make(chan dht.QueryResult, 1)
+	// the node's own query is not always a ping: any answered query shows the contact is alive
+	method := []string{"ping", "ping", "find_node", "get_peers", "get"}[sc.r.rng.Intn(5)]
 	go func() {
 		if pinged != nil {
 			done <- sc.s.VerifQuestionableNodePing(context.Background(), dht.NewAddr(addr), *pinged)
 			return
 		}
-		done <- sc.s.Query(context.Background(), dht.NewAddr(addr), "ping", dht.QueryInput{NumTries: 1})
+		tgt := sc.root
+		done <- sc.s.Query(context.Background(), dht.NewAddr(addr), method, dht.QueryInput{NumTries: 1, MsgArgs: krpc.MsgArgs{Target: tgt, InfoHash: tgt}})
 	}()
 	if sc.isBlocked(addr.IP) {
 		// the write is refused: the query fails without a datagram
@@ -996,6 +999,14 @@ func (sc *srvScen) respondingNodeVia(addr *net.UDPAddr, id [20]byte, ro bool, pi
 	select {
 	case <-done:
 		sc.answered[hx(id[:])+"@"+dht.NewAddr(addr).String()] = true
+		// a contact that has just answered is not bad (unless its ID is the node's own, zero or, under
+		// enforcement, invalid for its IP): it must not be left marked as failing its last ping
+		key := hx(id[:]) + "@" + dht.NewAddr(addr).String()
+		for _, n := range sc.s.VerifTableSnapshot().Nodes {
+			if hx(n.Id[:])+"@"+n.Addr == key && n.FailedPing {
+				sc.viol("C06", "a contact that has just answered one of the node's queries is still marked as failing its last ping (it stays bad and will be displaced): "+key)
+			}
+		}
 	case <-time.After(5 * time.Second):
 		sc.viol("C07", "matching reply did not complete the ping")
 	}
